@@ -340,8 +340,8 @@ pub fn c18() -> CheckDef {
 		assumptions: &["no schedule or fault in the statement: the only simulator event is close + reopen (scope note in DESIGN.md); crash consistency of the index is C10's", "page accounting is judged from outside (file size under identical cycles): calculate_tree_stats is cfg(test)-only"],
 		components: "real: bplustree::tree::DiskBPlusTree on std::fs files; simulated: nothing but the program and reopen points; stubbed: nothing",
 		cases: |t| match t {
-			Tier::Quick => 1200,
-			Tier::Thorough => 12000,
+			Tier::Quick => 8000,
+			Tier::Thorough => 100000,
 		},
 		gen,
 		judge,
